@@ -133,6 +133,70 @@ pub fn run() -> i32 {
     t!(oracle::cmp_uint_float(0, -0.5) == Some(Ordering::Greater), "0 > -0.5");
     t!(oracle::cmp_int_float(0, f64::NAN).is_none(), "NaN unordered");
     t!(oracle::cmp_int_uint(-1, 0) == Ordering::Less, "-1 < 0u");
+    // ---- node-level reference semantics (native replay body of the MIR engine) against the real
+    // evaluator: every operator x operand-result kinds, a few payloads; the only tolerated
+    // disagreement is none
+    #[cfg(not(kani))]
+    {
+        let payloads: [(i64, bool); 3] = [(0, false), (5, true), (-3, true)];
+        let mut node_bad = 0;
+        for op in (0..17u8).filter(|o| *o != 15) {
+            for k0 in 0..5u8 {
+                for k1 in 0..5u8 {
+                    for k2 in [0u8, 2] {
+                        for (pi, (p, b)) in payloads.iter().enumerate() {
+                            let (q, c) = payloads[(pi + 1) % 3];
+                            let vals: Vec<Vec<u8>> = vec![
+                                vec![op], vec![k0], vec![k1], vec![k2],
+                                p.to_le_bytes().to_vec(), q.to_le_bytes().to_vec(), 7i64.to_le_bytes().to_vec(),
+                                vec![*b as u8], vec![c as u8], vec![1],
+                            ];
+                            crate::sym::load(vals);
+                            let r = std::panic::catch_unwind(|| crate::node::c06_node());
+                            n += 1;
+                            if r.is_err() {
+                                node_bad += 1;
+                                if node_bad <= 3 {
+                                    eprintln!("SELFTEST-FAIL: node reference semantics disagrees with the evaluator: op={} kinds=({},{},{}) payloads=({},{})", op, k0, k1, k2, p, q);
+                                }
+                            }
+                        }
+                    }
+                }
+            }
+        }
+        failed += node_bad;
+        // ---- C11 replay bodies against the real Context / comprehension evaluator
+        let mut c11_bad = 0;
+        for levels in 1..=3u8 {
+            for m0 in 0..8u8 {
+                for m1 in 0..8u8 {
+                    for m2 in [0u8, 5, 7] {
+                        crate::sym::load(vec![vec![levels], vec![m0], vec![m1], vec![m2]]);
+                        n += 1;
+                        if std::panic::catch_unwind(|| crate::node::c11_chain()).is_err() {
+                            c11_bad += 1;
+                        }
+                    }
+                }
+            }
+        }
+        for nn in 0..=3u8 {
+            for fail in 0..12u8 {
+                for conds in 0..8u8 {
+                    crate::sym::load(vec![vec![nn], vec![fail], vec![conds]]);
+                    n += 1;
+                    if std::panic::catch_unwind(|| crate::node::c11_fold()).is_err() {
+                        c11_bad += 1;
+                        if c11_bad <= 3 {
+                            eprintln!("SELFTEST-FAIL: c11_fold reference trace disagrees with the evaluator: n={} fail={} conds={}", nn, fail, conds);
+                        }
+                    }
+                }
+            }
+        }
+        failed += c11_bad;
+    }
     println!("SELFTEST cases={} failed={} sweep_mismatches={}", n, failed, mism);
     if failed == 0 {
         0
